@@ -63,6 +63,7 @@ fn run_case(lines: &[String], out: &mut impl Write) {
     let mut blocking = true;
     let (mut total, mut chunk) = (0usize, 1usize);
     let mut end_into_inner = false;
+    let mut probe_first = false;
     let mut ops: Vec<String> = Vec::new();
     for l in lines {
         let w: Vec<&str> = l.split_whitespace().collect();
@@ -74,6 +75,8 @@ fn run_case(lines: &[String], out: &mut impl Write) {
                 chunk = w[3].parse().unwrap();
             }
             "finish" => end_into_inner = w[1] == "intoinner",
+            // every wait is first polled under a throw-away waker (a `now_or_never`-style probe), then awaited
+            "probe" => probe_first = w[1] == "1",
             _ => ops.push(l.clone()),
         }
     }
@@ -106,8 +109,15 @@ fn run_case(lines: &[String], out: &mut impl Write) {
                     let pos = prog.borrow().moved;
                     let want = chunk.min(total - pos);
                     if mode_read {
+                        let mut probe_now = probe_first;
                         let n = std::future::poll_fn(|cx| {
                             prog.borrow_mut().polls += 1;
+                            if std::mem::take(&mut probe_now) {
+                                let mut other = std::task::Context::from_waker(std::task::Waker::noop());
+                                if let std::task::Poll::Ready(r) = Pin::new(&mut io).poll_read(&mut other, &mut buf[..want]) {
+                                    return std::task::Poll::Ready(r);
+                                }
+                            }
                             Pin::new(&mut io).poll_read(cx, &mut buf[..want])
                         })
                         .await
@@ -126,8 +136,15 @@ fn run_case(lines: &[String], out: &mut impl Write) {
                         for (i, b) in buf[..want].iter_mut().enumerate() {
                             *b = ((pos + i) % 251) as u8;
                         }
+                        let mut probe_now = probe_first;
                         let n = std::future::poll_fn(|cx| {
                             prog.borrow_mut().polls += 1;
+                            if std::mem::take(&mut probe_now) {
+                                let mut other = std::task::Context::from_waker(std::task::Waker::noop());
+                                if let std::task::Poll::Ready(r) = Pin::new(&mut io).poll_write(&mut other, &buf[..want]) {
+                                    return std::task::Poll::Ready(r);
+                                }
+                            }
                             Pin::new(&mut io).poll_write(cx, &buf[..want])
                         })
                         .await
